@@ -38,21 +38,23 @@ What is proved
 * `failed_write_keeps_others` — `write` under any schedule, whatever device call failed: every
   other chain of the volume is still a chain and holds the same bytes, every block that is neither a
   FAT block nor a block of the written file's own (possibly extended) chain is the same, every table
-  entry other than file slot `i` and the bookkeeping of volume slot `vi` is the same.
+  entry other than file slot `i` and the bookkeeping of volume slot `vi` is the same, and the cache is
+  COHERENT again.
 * `alloc_under_faults` — the engine fact behind it: an allocation in which any device call may
   fail changes no data block and, in the FAT, at most the entry of a cluster that was FREE and the
   entry of the predecessor.
 
-Finding (evaluated below, `Example.stale_cache_after_failed_write`): a failed WRITE does not keep
-the cache coherent — `BlockCache::write_back` leaves the modified block tagged when the device write
-fails.  A `read` issued next can be served from that block and return bytes that are NOT on the
-medium; once the block has been evicted the same `read` returns the medium's bytes.  (Failed
-read-only calls keep the cache coherent — `Props/C11.lean` — which is what makes the retry theorems
-chain.)  The hypotheses below therefore ask for a coherent cache in the state the (first) call
-starts from.
+FORMER FINDING, REPAIRED (`Example.no_stale_cache_after_failed_write`): `BlockCache::write_back` used to leave the
+modified block TAGGED when the device write failed, so a `read` issued next could be served from that block and
+return bytes that were not on the medium.  The crate now clears the tag on a failed device write (as it always did on
+a failed device read); the model (`Model/Dev.lean`, `writeBack` / `writeBackWithDuplicate`) follows.  Hence EVERY
+call, failed or not, keeps the cache coherent (`Props/C11.cache_coherent_after_any_call`), and
+`failed_write_keeps_others` now also concludes a coherent cache: the state a failed `write` leaves satisfies the
+cache hypothesis of every theorem of this file again.
 -/
 import Sdmmc.Lemmas.RetryWriteTop
 import Sdmmc.Lemmas.RetryDir
+import Sdmmc.Lemmas.FaultCohApi
 import Sdmmc.Props.C11
 import Sdmmc.Props.C01Write
 import Sdmmc.Props.C02Reopen
@@ -253,7 +255,9 @@ included:
 * there is a chain `cs'` extending `cs` — the written file's own, possibly extended, chain — such
   that every chain `X` of `A ++ B` is still a chain of the FAT, shares no cluster with `cs'` and holds
   exactly the bytes it held; and every block that is neither a FAT block of the volume nor a block of
-  a cluster of `cs'` is the same. -/
+  a cluster of `cs'` is the same;
+* the cache is coherent and the lock is open: of `MgrOKF` only the 512-byte block length of the medium is not
+  re-established here. -/
 theorem failed_write_keeps_others (s : Mgr) (h i vi : Nat) (data : Bytes) (f : FileInfo) (v : VolInfo) (cs : List Nat)
     (A B : List (List Nat)) (hs : MgrOKF s)
     (hh : s.files.findIdx? (·.rawFile = h) = some i) (hf : s.files[i]? = some f)
@@ -267,8 +271,13 @@ theorem failed_write_keeps_others (s : Mgr) (h i vi : Nat) (data : Bytes) (f : F
     (∃ cs', cs <+: cs' ∧
       (∀ X, X ∈ A ++ B → Chain v.vol (write h data s).2.dev.disk (X.headD 0) X ∧ (∀ x, x ∈ X → x ∉ cs') ∧
         chainBytes v.vol (write h data s).2.dev.disk X = chainBytes v.vol s.dev.disk X) ∧
-      (∀ b, ¬ IsFatBlock v.vol b → ¬ IsClusterBlock v.vol cs' b → (write h data s).2.dev.disk.get b = s.dev.disk.get b)) :=
-  Lemmas.Retry.write_keeps_others s h i vi data f v cs A B hs hh hf hv hvi hmode hg hhint hok hcur hown
+      (∀ b, ¬ IsFatBlock v.vol b → ¬ IsClusterBlock v.vol cs' b → (write h data s).2.dev.disk.get b = s.dev.disk.get b)) ∧
+    (∀ i, (write h data s).2.cache.tag = some i → (write h data s).2.cache.blk = (write h data s).2.dev.disk.get i) ∧
+    (write h data s).2.locked = false := by
+  obtain ⟨h1, h2, h3⟩ := Lemmas.Retry.write_keeps_others s h i vi data f v cs A B hs hh hf hv hvi hmode hg hhint hok hcur hown
+  refine ⟨h1, h2, h3, Lemmas.FaultCoh.write_mcoh h data s hs.1, ?_⟩
+  obtain ⟨f', v', heq, _, _⟩ := h1
+  rw [heq]; exact hs.2.2
 
 /-- The open files behind it: another open file `g` (slot `j ≠ i`) of the volume with chain
 `X ∈ A ++ B`, consistent with the medium before the call, is the same record in the same slot, still
@@ -422,31 +431,39 @@ example : ∃ cs', [5, 2, 7] <+: cs' ∧
       (write 1 data700 (withFaults [7] mgrW)).2.dev.disk.get b = (withFaults [7] mgrW).dev.disk.get b) :=
   (failed_write_keeps_others (withFaults [7] mgrW) 1 0 0 data700 fileW vinfo [5, 2, 7] [] [[3]] mgrOKF
     C01Write.Example.handle_found rfl C01Write.Example.volume_found rfl (by decide) wfgeom hintOK fileOKW
-    (fun h => by cases h) owns).2.2
+    (fun h => by cases h) owns).2.2.1
 
-/-! #### Finding: a failed write leaves the cache incoherent -/
+/-! #### A failed write does not leave a stale block in the cache
+
+(Before the repair of `BlockCache::write_back` — the cache kept its tag when the device write failed — this
+example was the FINDING `stale_cache_after_failed_write`: the `read` issued next was served from the cache and
+returned the ten bytes that are not on the medium.) -/
 
 /-- Ten bytes written at offset 100 (block 13, first cluster — no FAT access needed): the block is
 read (call 0), patched in the cache, and the device write (call 1) fails.  The call answers
-`DeviceError`; the medium still holds 0xAA; but the cache keeps the patched block, tagged 13.
-The `read` issued next is served from the cache — no device call at all — and returns the ten bytes
-that are NOT on the medium; after another block has passed through the cache, the same `read`
-returns the medium's bytes. -/
-theorem stale_cache_after_failed_write :
+`DeviceError`; the medium still holds 0xAA; the cache has FORGOTTEN the patched block (tag `none`), so
+the state is coherent again (`MgrOKF`); the `read` issued next goes to the device (one more device
+call) and returns the medium's bytes. -/
+theorem no_stale_cache_after_failed_write :
     let s1 := (fileSeekFromStart 1 100 mgrW).2
     let s2 := (write 1 (List.replicate 10 0x11) (withFaults [1] s1)).2
     let s3 := (read 1 12 (withFaults [] s2)).2
     (write 1 (List.replicate 10 0x11) (withFaults [1] s1)).1 = .err .DeviceError ∧
     ((s2.dev.disk.get 13).drop 100).take 12 = List.replicate 12 0xAA ∧
-    s2.cache.tag = some 13 ∧ ¬ MgrOKF s2 ∧
-    (read 1 12 (withFaults [] s2)).1 = .ok (List.replicate 10 0x11 ++ List.replicate 2 0xAA) ∧
-    s3.dev.calls = s2.dev.calls ∧
-    (read 1 12 (fileSeekFromStart 1 100 (read 2 1 s3).2).2).1 = .ok (List.replicate 12 0xAA) := by
-  refine ⟨by decide +kernel, by decide +kernel, by decide +kernel, ?_, by decide +kernel, by decide +kernel, by decide +kernel⟩
-  intro h
-  have := h.1 13 (by decide +kernel)
-  revert this
-  decide +kernel
+    s2.cache.tag = none ∧ MgrOKF s2 ∧
+    (read 1 12 (withFaults [] s2)).1 = .ok (List.replicate 12 0xAA) ∧
+    s3.dev.calls = s2.dev.calls + 1 := by
+  refine ⟨by decide +kernel, by decide +kernel, by decide +kernel, ?_, by decide +kernel, by decide +kernel⟩
+  refine ⟨fun i hi => ?_, ?_, by decide +kernel⟩
+  · have : (write 1 (List.replicate 10 0x11) (withFaults [1] (fileSeekFromStart 1 100 mgrW).2)).2.cache.tag = none := by
+      decide +kernel
+    rw [this] at hi; cases hi
+  · intro i
+    have hb : ∀ i, ((write 1 (List.replicate 10 0x11) (withFaults [1] (fileSeekFromStart 1 100 mgrW).2)).2.dev.disk.get i).length = 512 := by
+      have : (write 1 (List.replicate 10 0x11) (withFaults [1] (fileSeekFromStart 1 100 mgrW).2)).2.dev.disk = mgrW.dev.disk := by
+        rfl
+      intro i; rw [this]; exact mgrOKF.2.1 i
+    exact hb i
 
 end Example
 
